@@ -12,7 +12,10 @@ c*c + s*s == 1 for unit pairs, definitions).  Here
       literally a conjunct of pc, because every division forked on it);
   (c) sympy -- UNTRUSTED, a hint generator -- proposes cofactors c_i by
       multivariate division of N by the g_i;
-  (d) z3 checks the pure polynomial identity  N - sum_i c_i g_i == 0  with no
+      (first by pseudo-division along the tower of atoms, vf/certpd.py, which yields
+      M N = sum_i c_i g_i with M a product of leading coefficients shown non-zero by
+      z3; then by plain multivariate division, M = 1);
+  (d) z3 checks the pure polynomial identity  M N - sum_i c_i g_i == 0  with no
       hypotheses, each g_i being the numerator (same fraction arithmetic,
       divisors shown non-zero) of lhs - rhs of an equality that is a conjunct of pc;
   (e) z3 checks the composition step over fresh variables:
@@ -171,6 +174,7 @@ def prove_eq_mod(ctx, lhs, rhs, extra=(), timeout_ms=20000):
         syms = {}
         num = sympy.expand(symx._to_sympy(N, syms))
         Q, gs, gz = [], [], []
+        Mult = sympy.Integer(1)
         if num != 0:
             for e in _equalities(pcs):
                 try:
@@ -197,11 +201,21 @@ def prove_eq_mod(ctx, lhs, rhs, extra=(), timeout_ms=20000):
                     return (0, -int(nm.rsplit('_', 1)[1]), nm)
                 return (1, 0, nm)
             gens = sorted(free, key=order)
-            Q, r = sympy.reduced(num, gs, *gens, order='lex')
-            if r != 0:
-                if dbg:
-                    print('GENS', gens); print('GS', gs); print('REM', str(r)[:600])
-                return 'unknown', time.time() - t0, 'remainder not zero'
+            # strategy A: pseudo-division along the tower of atoms (M * N = sum C_i g_i); strategy B: plain multivariate division
+            from . import certpd
+            tw = None
+            try:
+                tw = certpd.tower_certificate(num, gs)
+            except Exception:
+                tw = None
+            if tw is not None:
+                Mult, Q = tw
+            else:
+                Q, r = sympy.reduced(num, gs, *gens, order='lex')
+                if r != 0:
+                    if dbg:
+                        print('GENS', gens); print('GS', gs); print('REM', str(r)[:600])
+                    return 'unknown', time.time() - t0, 'remainder not zero'
         # (d) the identity, checked by z3 with no hypotheses; generators written from pc's own equalities
         comb = z3.RealVal(0)
         used = []
@@ -219,15 +233,24 @@ def prove_eq_mod(ctx, lhs, rhs, extra=(), timeout_ms=20000):
                     return 'unknown', time.time() - t0, 'divisor of a relation not shown non-zero (%s): %s' % (r2, str(d)[:80])
             comb = comb + symx._from_sympy(sympy.expand(q_), syms) * Ng
             used.append(Ng)
-        r1, dt1, _ = symx.solve([N - comb != 0], timeout_ms)
+        Mz = symx._from_sympy(sympy.expand(Mult), syms)
+        r1, dt1, _ = symx.solve([Mz * N - comb != 0], timeout_ms)
         if r1 != 'unsat':
             return 'unknown', time.time() - t0, 'identity not confirmed by z3 (%s)' % r1
+        if not Mult.is_number:
+            # the multiplier (a product of leading coefficients of the relations) must not vanish
+            rM, dtM, _ = symx.solve(pcs + [Mz == 0], min(timeout_ms, 10000))
+            if rM != 'unsat':
+                return 'unknown', time.time() - t0, 'multiplier not shown non-zero (%s)' % rM
+        elif Mult == 0:
+            return 'unknown', time.time() - t0, 'zero multiplier'
         # (e) composition over fresh variables
         n = len(used)
         G = [z3.Real('cert_G%d' % i) for i in range(n)]
         C = [z3.Real('cert_C%d' % i) for i in range(n)]
         P_, Q_, X_ = z3.Real('cert_P'), z3.Real('cert_Q'), z3.Real('cert_X')
-        hyp = [g == 0 for g in G] + [P_ == (z3.Sum([c * g for c, g in zip(C, G)]) if n else 0), Q_ != 0, X_ * Q_ == P_]
+        M_ = z3.Real('cert_M')
+        hyp = [g == 0 for g in G] + [M_ * P_ == (z3.Sum([c * g for c, g in zip(C, G)]) if n else 0), M_ != 0, Q_ != 0, X_ * Q_ == P_]
         r4, dt4, _ = symx.solve(hyp + [X_ != 0], timeout_ms)
         if r4 != 'unsat':
             return 'unknown', time.time() - t0, 'composition step not confirmed'
